@@ -39,6 +39,9 @@ var hangLimit = time.Duration(vstat.EnvInt("VERIF_HANG_S", 20)) * time.Second
 // per process), or ten times hangLimit of wall time for a call that is blocked rather than busy.
 func guard(f func()) (panicMsg string) { return guardFor(f, 1) }
 
+// slowLog (VERIF_SLOWLOG=1, development aid) reports guarded calls that take more than two seconds.
+var slowLog = os.Getenv("VERIF_SLOWLOG") != ""
+
 // guardFor is guard with the bound multiplied by scale (inputs of megabytes legitimately take seconds).
 func guardFor(f func(), scale int) (panicMsg string) {
 	done := make(chan string, 1)
@@ -71,6 +74,12 @@ func guardFor(f func(), scale int) (panicMsg string) {
 	for {
 		select {
 		case msg := <-done:
+			if slowLog && time.Since(wall0) > 2*time.Second {
+				if lf, err := os.OpenFile(os.Getenv("VERIF_SLOWLOG"), os.O_APPEND|os.O_CREATE|os.O_WRONLY, 0o644); err == nil {
+					fmt.Fprintf(lf, "SLOW-CASE wall=%v cpu=%v scale=%d\n", time.Since(wall0).Round(time.Millisecond), (processCPU() - cpu0).Round(time.Millisecond), scale)
+					lf.Close()
+				}
+			}
 			return msg
 		case <-tick.C:
 			if wall := time.Since(wall0); wall >= limit {
